@@ -80,6 +80,7 @@ class Ctx:
         self.checks = []         # (label, verdict, seconds, model|None)
         self.notes = {}
         self.used_consts = set()
+        self.axioms = []         # facts about symbolic constants / uninterpreted cos,sin (not path condition)
         self.reached = False
         self.fork_cap = 64
 
@@ -96,6 +97,8 @@ class Ctx:
         dt = time.time() - t
         self.stats["queries"] += 1
         self.stats["solver_s"] += dt
+        if dt > self.stats.get("max_query_s", 0):
+            self.stats["max_query_s"] = round(dt, 2)
         self.stats["q_" + str(r)] = self.stats.get("q_" + str(r), 0) + 1
         return str(r), m
 
@@ -103,8 +106,11 @@ class Ctx:
         if name not in self.used_consts:
             self.used_consts.add(name)
             for a in CONST_AXIOMS[name]:
-                self.solver.add(a)
-                self.pc.append(a)
+                self.axiom(a)
+
+    def axiom(self, e):
+        self.solver.add(e)
+        self.axioms.append(e)
 
     def assume(self, e):
         if isinstance(e, SBool):
@@ -233,6 +239,32 @@ class Ctx:
         self.checks.append((label, r, time.time() - t, vals))
         return r
 
+    def diverse_model(self, rng, *extra):
+        """A model of the path condition with as many inputs as possible pinned to small random values."""
+        self.solver.push()
+        try:
+            for e in extra:
+                self.solver.add(e)
+            names = list(self.inputs)
+            rng.shuffle(names)
+            for n in names:
+                c = self.inputs[n]
+                if c.sort() == z3.IntSort():
+                    v = z3.IntVal(rng.randint(-3, 3))
+                elif c.sort() == z3.RealSort():
+                    v = realval(Fraction(rng.randint(-12, 12), 4))
+                else:
+                    continue
+                self.solver.push()
+                self.solver.add(c == v)
+                r, _ = self._check()
+                if r != "sat":
+                    self.solver.pop()
+            r, m = self._check()
+            return model_values(m, self.inputs) if r == "sat" else None
+        finally:
+            self.solver.pop()
+
     def model_of_pc(self, *extra):
         r, m = self._check(*extra)
         if r != "sat":
@@ -262,7 +294,7 @@ def model_values(m, inputs):
     return out
 
 
-def explore(fn, max_paths=20000, deadline=None):
+def explore(fn, max_paths=20000, deadline=None, stop=None):
     """Run fn(ctx) over every feasible decision sequence.  Returns (ctxs, stats)."""
     stats = {"paths": 0, "branches": 0, "queries": 0, "solver_s": 0.0, "aborted": 0}
     stack = [[]]
@@ -277,6 +309,15 @@ def explore(fn, max_paths=20000, deadline=None):
         except PathAbort:
             stats["aborted"] += 1
             ctx.result = None
+        except BaseException as e:
+            if stop is not None and isinstance(e, stop):
+                done.append(ctx)
+                stats["paths"] += 1
+                stats["stopped_early"] = True
+                ctx.solver = None
+                Ctx.cur = None
+                return done, stats
+            raise
         finally:
             Ctx.cur = None
         stats["paths"] += 1
@@ -827,15 +868,34 @@ def cycles_of_rad(th):
     return z3.simplify(th1 / 2)
 
 
-def cis_cycles(phi):
-    """exp(2 pi i phi) for a z3 real term phi (cycles)."""
-    ctx = Ctx.cur
+_NOCTX = object()
+
+
+def _has_real_const(e):
+    """does the term mention an uninterpreted constant of sort Real?  (then it is not provably k/N)"""
+    seen = set()
+    stack = [e]
+    while stack:
+        t = stack.pop()
+        if t.get_id() in seen:
+            continue
+        seen.add(t.get_id())
+        if z3.is_const(t) and t.decl().kind() == z3.Z3_OP_UNINTERPRETED and t.sort() == z3.RealSort():
+            return True
+        stack.extend(t.children())
+    return False
+
+
+def cis_cycles(phi, ctx=_NOCTX):
+    """exp(2 pi i phi) for a z3 real term phi (cycles).  ctx=None: closed-term mode (no solver)."""
+    if ctx is _NOCTX:
+        ctx = Ctx.cur
     phi = z3.simplify(phi)
     if z3.is_rational_value(phi):
         fr = Fraction(phi.numerator_as_long(), phi.denominator_as_long())
         if 24 % fr.denominator == 0:
             return root_of_unity(fr.denominator, fr.numerator)
-    elif ctx is not None:
+    elif ctx is not None and not _has_real_const(phi):
         for N in ROOT_ORDERS:
             a = z3.ToInt(phi * N)
             r, _ = ctx._check(z3.ToReal(a) != phi * N)
@@ -844,7 +904,13 @@ def cis_cycles(phi):
     red = z3.simplify(phi - z3.ToReal(z3.ToInt(phi)))
     if ctx is not None:
         c, s = COSC(red), SINC(red)
-        ctx.assume(c * c + s * s == 1)
+        ctx.axiom(c * c + s * s == 1)
+        if "cis" not in ctx.used_consts:
+            ctx.used_consts.add("cis")
+            for fr, (cv, sv) in ((Fraction(0), (1, 0)), (Fraction(1, 4), (0, 1)), (Fraction(1, 2), (-1, 0)),
+                                 (Fraction(3, 4), (0, -1))):
+                ctx.axiom(COSC(realval(fr)) == cv)
+                ctx.axiom(SINC(realval(fr)) == sv)
     return SComplex(COSC(red), SINC(red))
 
 
